@@ -485,6 +485,10 @@ def collectDirs : List Directive → Option (Bool × List Directive)
       some (e.cancel || c, if d.name == b!"id" || d.name == b!"noAutoescape" then kept else d :: kept)
     | _, _ => none
 
+/-- the directives applied, outermost first: the implicit escapeHtml unless autoescaping is off or cancelled -/
+def printDirs (ae : Autoescape) (cancel : Bool) (kept : List Directive) : List Directive :=
+  if (if cancel then Autoescape.off else ae) != .off then { pos := 0, name := escapeHtmlName, args := [] } :: kept else kept
+
 def closeDirective (d : Directive) : M Unit := do
   seqM (d.args.map fun a => do fx b!","; walkExpr sk o a)
   whenM (d.name == b!"truncate" && d.args.length == 1) (fx b!",true")
@@ -496,9 +500,7 @@ def visitPrint (arg : Expr) (dirs : List Directive) : M Unit := do
   | none => fail
   | some (cancel, kept) => do
     whenM (isEs6 o) (seqM (kept.map fun d => addCalled d.name (tableImport (directiveJsName d.name))))
-    let escape := if cancel then Autoescape.off else s.autoescape
-    let ds : List Directive :=
-      if escape != .off then { pos := 0, name := escapeHtmlName, args := [] } :: kept else kept
+    let ds := printDirs s.autoescape cancel kept
     indentP
     emit (.ident s.bufferName); fx b!" += "
     seqM (ds.map fun d => do fx (directiveJsName d.name); fx b!"(")
@@ -570,6 +572,22 @@ def lookupMsg : List (Nat × MParts) → Nat → Option MParts
   | [], _ => none
   | (k, v) :: r, id => if k == id then some v else lookupMsg r id
 
+def litInt (v : Int) : Expr := .int 0 v
+
+/-- the `switch len(rangeNode.Args)` of visitForRange -/
+def rangeIncr : ExprList → Expr
+  | .cons _ (.cons _ (.cons c .nil)) => c
+  | _ => litInt 1
+def rangeInit : ExprList → Expr
+  | .cons a (.cons _ .nil) => a
+  | .cons a (.cons _ (.cons _ .nil)) => a
+  | _ => litInt 0
+def rangeLimit : ExprList → Option Expr
+  | .cons a .nil => some a
+  | .cons _ (.cons b .nil) => some b
+  | .cons _ (.cons b (.cons _ .nil)) => some b
+  | _ => none
+
 /-- visitNamespace: one declaration per dot segment -/
 def nsLoop (name : Bytes) : Nat → Nat → M Unit
   | 0, _ => pure ()
@@ -591,8 +609,6 @@ def allOptional (t : NodeTag) : Bool :=
   match t with
   | .soydoc params => !params.isEmpty && params.all (·.optional)
   | .other => false
-
-def litInt (v : Int) : Expr := .int 0 v
 
 mutual
   /-- s.walk(node) for the command nodes -/
@@ -634,22 +650,13 @@ mutual
       match isRangeCall list with
       | some args => do
         -- visitForRange
-        let incr : Expr := match args with
-          | .cons _ (.cons _ (.cons c .nil)) => c
-          | _ => litInt 1
-        let init : Expr := match args with
-          | .cons a (.cons _ .nil) => a
-          | .cons a (.cons _ (.cons _ .nil)) => a
-          | _ => litInt 0
-        let limit : Option Expr := match args with
-          | .cons a .nil => some a
-          | .cons _ (.cons b .nil) => some b
-          | .cons _ (.cons b (.cons _ .nil)) => some b
-          | _ => none
+        let incr := rangeIncr args
+        let init := rangeInit args
+        let limit := rangeLimit args
         -- the arguments of range() are not in the scope of the loop variable
-        let limitJs ← match limit with
+        let limitJs ← (match limit with
           | some l => block (walkExpr sk o l)
-          | none => fail                                -- s.block(nil): "unknown node"
+          | none => fail)                               -- s.block(nil): "unknown node"
         let initJs ← block (walkExpr sk o init)
         let incrJs ← block (walkExpr sk o incr)
         let sc ← getScope
@@ -708,15 +715,15 @@ mutual
     | .call _ name allData data params => do
       atOther
       let d0 : List Piece ←
-        match data with
-        | some e => block (walkExpr sk o e)
-        | none => pure (if allData then [.fixed b!"opt_data"] else [.fixed b!"{}"])
+        (match data with
+          | some e => block (walkExpr sk o e)
+          | none => pure (if allData then [.fixed b!"opt_data"] else [.fixed b!"{}"]))
       let dataExpr : List Piece ←
-        match params with
-        | .nil => pure d0
-        | ps => do
-          let acc ← visitParams ps true ([.fixed b!"soy.$$augmentMap("] ++ d0 ++ [.fixed b!", {"])
-          pure (acc ++ [.fixed b!"})"])
+        (match params with
+          | .nil => pure d0
+          | ps => do
+            let acc ← visitParams ps true ([.fixed b!"soy.$$augmentMap("] ++ d0 ++ [.fixed b!", {"])
+            pure (acc ++ [.fixed b!"})"]))
       let b ← getBuf
       indentP
       emit (.ident b); fx b!" += "
